@@ -61,6 +61,18 @@ NoTx == [st |-> "none", id |-> "", recs |-> <<>>, view |-> Empty]
 (* Code-shaped: a record that is not applicable is ignored, as the commit  *)
 (* path ignores the data structures' errors.                               *)
 
+\* Known findings modelled as deterministic deviations (enabled by Dev):
+\*   F-C06-1  ds/set.SRem rejects the empty member, so SRem/SPop/SMove never
+\*            remove "" although SAdd stores it
+\*   F-C06-2  SMoveByOneBucket/TwoBuckets change the in-memory sets at call
+\*            time and log nothing: not durable, not rolled back, performed in
+\*            read-only transactions, and performed for non-members of the source
+\*   F-C07-1  ZRem of the member with the empty key returns ErrKeyEmpty: the
+\*            record key would be empty, which Tx.put refuses
+F_SRemEmpty == "F-C06-1"
+F_SMove     == "F-C06-2"
+F_ZRemEmpty == "F-C07-1"
+
 ApplyList(l, r) ==
   CASE r.op = "rpush" -> l \o <<r.v>>
     [] r.op = "lpush" -> <<r.v>> \o l
@@ -86,7 +98,9 @@ ApplyRec(c, r) ==
     [] r.ds = "ls" -> [c EXCEPT !.ls = Upd(@, <<r.b, r.k>>, ApplyList(ListOf(c, r.b, r.k), r))]
     [] r.ds = "st" ->
          [c EXCEPT !.st = Upd(@, <<r.b, r.k>>,
-             IF r.op = "sadd" THEN SetOf(c, r.b, r.k) \cup {r.v} ELSE SetOf(c, r.b, r.k) \ {r.v})]
+             IF r.op = "sadd" THEN SetOf(c, r.b, r.k) \cup {r.v}
+             ELSE IF r.v = "" /\ F_SRemEmpty \in Dev THEN SetOf(c, r.b, r.k)   \* known finding
+             ELSE SetOf(c, r.b, r.k) \ {r.v})]
     [] r.ds = "zs" -> [c EXCEPT !.zs = Upd(@, r.b, ApplyZ(ZOf(c, r.b), r))]
 
 ApplyRecs(c, rs) == FoldLeft(ApplyRec, c, rs)
@@ -143,7 +157,7 @@ ValsOK(res, m) == \A i \in 1..Len(res) : res[i].k \in DOMAIN m /\ res[i].v = m[r
 \* a scan's error and an empty result are the same observation
 Got(a) == IF a.err THEN <<>> ELSE Keys(a.res)
 
-KvReadOK(a, c) ==
+KvReadOK(a, c, D) ==
   LET m == BucketOf(c, a.b) IN
   \E Lv \in KV!LiveSets(m, a.t0, a.t1) :
     CASE a.op = "get" ->
@@ -159,7 +173,7 @@ KvReadOK(a, c) ==
            ELSE /\ KV!PageOK(Got(a), KV!PrefixSearchAll(Lv, a.p, SeqToSet(a.ms)), 0, a.lim)
                 /\ (~a.err => ValsOK(a.res, m))
 
-ListReadOK(a, c) ==
+ListReadOK(a, c, D) ==
   LET l == ListOf(c, a.b, a.k) IN
   CASE a.op = "lpeek"  -> IF a.err THEN L!LPeek(l).mayErr ELSE ~L!LPeek(l).nil /\ a.res = L!LPeek(l).res
     [] a.op = "rpeek"  -> IF a.err THEN L!RPeek(l).mayErr ELSE ~L!RPeek(l).nil /\ a.res = L!RPeek(l).res
@@ -168,7 +182,7 @@ ListReadOK(a, c) ==
 
 NoDup(s) == Cardinality(SeqToSet(s)) = Len(s)
 
-SetReadOK(a, c) ==
+SetReadOK(a, c, D) ==
   CASE a.op = "sismember"   -> a.ok = (a.v \in SetOf(c, a.b, a.k))
     [] a.op = "saremembers" -> a.ok = (SeqToSet(a.vals) \subseteq SetOf(c, a.b, a.k))
     [] a.op = "smembers"    -> IF a.err THEN SetOf(c, a.b, a.k) = {}
@@ -186,7 +200,7 @@ SetReadOK(a, c) ==
 NodeIs(n, z, k) == n.k = k /\ n.s = z[k].s /\ n.v = z[k].v
 NodesAre(res, z, ks) == Len(res) = Len(ks) /\ \A i \in 1..Len(ks) : NodeIs(res[i], z, ks[i])
 
-ZReadOK(a, c) ==
+ZReadOK(a, c, D) ==
   LET z == ZOf(c, a.b) n == Cardinality(DOMAIN z) IN
   CASE a.op = "zpeekmin" -> IF n = 0 THEN a.err \/ a.nil ELSE ~a.err /\ ~a.nil /\ NodeIs(a.node, z, Z!ZMin(z))
     [] a.op = "zpeekmax" -> IF n = 0 THEN a.err \/ a.nil ELSE ~a.err /\ ~a.nil /\ NodeIs(a.node, z, Z!ZMax(z))
@@ -219,11 +233,12 @@ ZReads    == {"zpeekmin", "zpeekmax", "zrangebyscore", "zcount", "zrangebyrank",
               "zrevrank", "zscore", "zgetbykey", "zcard", "zmembers"}
 Reads     == KvReads \cup ListReads \cup SetReads \cup ZReads
 
-ReadOK(a, c) ==
-  CASE a.op \in KvReads   -> KvReadOK(a, c)
-    [] a.op \in ListReads -> ListReadOK(a, c)
-    [] a.op \in SetReads  -> SetReadOK(a, c)
-    [] a.op \in ZReads    -> ZReadOK(a, c)
+\* D: the deviations (known findings) admitted in this evaluation
+ReadOK(a, c, D) ==
+  CASE a.op \in KvReads   -> KvReadOK(a, c, D)
+    [] a.op \in ListReads -> ListReadOK(a, c, D)
+    [] a.op \in SetReads  -> SetReadOK(a, c, D)
+    [] a.op \in ZReads    -> ZReadOK(a, c, D)
 
 -----------------------------------------------------------------------------
 (* Mutating calls: MutOK - is the logged outcome admitted when the call is *)
@@ -232,7 +247,7 @@ ReadOK(a, c) ==
 Muts == {"put", "del", "rpush", "lpush", "lpop", "rpop", "lrem", "lset", "ltrim",
          "sadd", "srem", "spop", "smove", "zadd", "zrem", "zremrank", "zpopmax", "zpopmin"}
 
-MutOK(a, c) ==
+MutOK(a, c, D) ==
   CASE a.op \in {"put", "del", "rpush", "lpush", "sadd", "srem", "zadd"} -> TRUE
     [] a.op = "lpop"  -> LET r == L!LPop(ListOf(c, a.b, a.k)) IN IF a.err THEN r.mayErr ELSE ~r.nil /\ a.res = r.res
     [] a.op = "rpop"  -> LET r == L!RPop(ListOf(c, a.b, a.k)) IN IF a.err THEN r.mayErr ELSE ~r.nil /\ a.res = r.res
@@ -243,7 +258,7 @@ MutOK(a, c) ==
     [] a.op = "smove" ->
          LET src == SetOf(c, a.b, a.k) dst == SetOf(c, a.b2, a.k2) IN
          IF a.err \/ ~a.ok THEN a.v \notin src \/ dst = {} ELSE a.v \in src
-    [] a.op = "zrem"     -> a.err => a.k \notin DOMAIN ZOf(c, a.b)
+    [] a.op = "zrem"     -> a.err => (a.k \notin DOMAIN ZOf(c, a.b) \/ (a.k = <<>> /\ F_ZRemEmpty \in D))
     [] a.op = "zremrank" -> a.err => DOMAIN ZOf(c, a.b) = {}
     [] a.op = "zpopmax"  ->
          LET z == ZOf(c, a.b) IN
@@ -295,11 +310,16 @@ Begin(a) ==
 \* on the committed state only.
 F_ReadsCommitted == "F-C13-1"
 
-CallOK(a, ok(_, _)) ==
-  \/ ok(a, tx.view) /\ UNCHANGED notes
-  \/ /\ ~ok(a, tx.view)
-     /\ F_ReadsCommitted \in Dev /\ tx.st = "rw" /\ ok(a, mem)
-     /\ notes' = notes \cup {F_ReadsCommitted}
+\* the findings a deviant evaluation of call a may be blamed on
+Blame(a) == IF a.op = "zrem" THEN {F_ZRemEmpty} ELSE {}
+
+CallOK(a, ok(_, _, _)) ==
+  \/ ok(a, tx.view, {}) /\ UNCHANGED notes
+  \/ /\ ~ok(a, tx.view, {}) /\ ok(a, tx.view, Dev)
+     /\ notes' = notes \cup (Blame(a) \cap Dev)
+  \/ /\ ~ok(a, tx.view, Dev)
+     /\ F_ReadsCommitted \in Dev /\ tx.st = "rw" /\ ok(a, mem, Dev)
+     /\ notes' = notes \cup {F_ReadsCommitted} \cup (IF ok(a, mem, {}) THEN {} ELSE Blame(a) \cap Dev)
 
 \* any read API inside a transaction
 Read(a) ==
@@ -309,9 +329,17 @@ Read(a) ==
 
 \* any mutating API inside a write transaction: buffered, visible to the
 \* transaction, applied at commit
+RemovesEmpty(a, c) ==
+  \/ a.op = "srem" /\ "" \in SeqToSet(a.vals) /\ "" \in SetOf(c, a.b, a.k)
+  \/ a.op = "spop" /\ ~a.err /\ a.res = ""
+
 Mutate(a) ==
   /\ tx.st = "rw" /\ a.op \in Muts
-  /\ CallOK(a, MutOK)
+  /\ ~(a.op = "smove" /\ F_SMove \in Dev)
+  /\ \/ CallOK(a, MutOK) /\ ~(F_SRemEmpty \in Dev /\ RemovesEmpty(a, tx.view))
+     \/ /\ F_SRemEmpty \in Dev /\ RemovesEmpty(a, tx.view)
+        /\ MutOK(a, tx.view, Dev) \/ (F_ReadsCommitted \in Dev /\ MutOK(a, mem, Dev))
+        /\ notes' = notes \cup {F_SRemEmpty}
   /\ tx' = [tx EXCEPT !.recs = @ \o Recs(a), !.view = ApplyRecs(@, Recs(a))]
   /\ UNCHANGED <<status, mem, log>>
 
@@ -319,7 +347,24 @@ Mutate(a) ==
 \* buffers nothing (C12)
 MutateRO(a) ==
   /\ tx.st = "ro" /\ a.op \in Muts
+  /\ ~(a.op = "smove" /\ F_SMove \in Dev)
   /\ UNCHANGED vars
+
+\* Known finding F-C06-2: what SMove does on the pinned tree.
+SMoveInPlace(c, a) ==
+  LET c1 == [c EXCEPT !.st = Upd(@, <<a.b2, a.k2>>, SetOf(c, a.b2, a.k2) \cup {a.v})]
+  IN  IF a.v = "" THEN c1
+      ELSE [c1 EXCEPT !.st = Upd(@, <<a.b, a.k>>, SetOf(c1, a.b, a.k) \ {a.v})]
+
+SMoveDeviant(a) ==
+  /\ F_SMove \in Dev /\ a.op = "smove" /\ tx.st \in {"rw", "ro"}
+  /\ IF a.err \/ ~a.ok
+     THEN /\ SetOf(mem, a.b, a.k) = {} \/ SetOf(mem, a.b2, a.k2) = {}
+          /\ UNCHANGED <<mem, tx, notes>>
+     ELSE /\ mem' = SMoveInPlace(mem, a)
+          /\ tx' = [tx EXCEPT !.view = ApplyRecs(SMoveInPlace(mem, a), tx.recs)]
+          /\ notes' = notes \cup {F_SMove}
+  /\ UNCHANGED <<status, log>>
 
 \* any API on a finished transaction: an error and no effect (C12)
 Finished(a) ==
